@@ -105,3 +105,44 @@ def plan_C17(c):
 
 def plan_C19(c):
     v(c, 'threads:3:0', 6000, 60000, chunks=8)
+
+
+def plan_C20(c):
+    """the same seeded driver in several build configurations: every build's trace must be accepted by the same
+    Trace.tla, and `pair` events require identical observables build by build"""
+    n = size(c, 5200, 60000)
+    chunks = 6 if c.tier == 'quick' else 16
+    builds = [('dev', ('rkyv',)), ('release', ('rkyv',))]
+    if c.tier != 'quick':
+        builds += [('relchk', ('rkyv',)), ('devnochk', ('rkyv',)),
+                   ('dev', ('packed', 'rkyv')), ('release', ('packed', 'rkyv')), ('relchk', ('packed', 'rkyv')), ('devnochk', ('packed', 'rkyv'))]
+    all_traces = {}
+    for prof, feats in builds:
+        label = prof + ('_packed' if 'packed' in feats else '')
+        traces = c.drive('c20', n, chunks, profile=prof, features=feats, label=label)
+        all_traces[label] = traces
+        c.validate_many(traces, 'V:c20[%s]' % label)
+    # pairwise: identical observables where Allowed is not a singleton (and everywhere else)
+    base = all_traces['dev']
+    pair_files = []
+    for label, traces in all_traces.items():
+        if label == 'dev':
+            continue
+        for i, (ta, tb) in enumerate(zip(base, traces)):
+            la, lb = open(ta).read().splitlines(), open(tb).read().splitlines()
+            out = os.path.join(c.work, 'P_%s_%d.ndjson' % (label, i))
+            with open(out, 'w') as f:
+                for a, b in zip(la, lb):
+                    ja = json.loads(a)
+                    if ja['ev'] in ('set', 'get', 'accset', 'spawn'):
+                        continue
+                    f.write(json.dumps({'ev': 'pair', 't': 1, 'builds': ['dev', label], 'call': ja, 'outs': [a, b]}) + '\n')
+                if len(la) != len(lb):
+                    f.write(json.dumps({'ev': 'pair', 't': 1, 'builds': ['dev', label], 'call': {'note': 'traces differ in length'}, 'outs': [str(len(la)), str(len(lb))]}) + '\n')
+            pair_files.append(out)
+    c.validate_many(pair_files, 'pair')
+    c.cov['builds'] = sorted(all_traces)
+
+
+EXTRA_ASSUME['C20'] = ['build configurations are cargo profiles of the harness workspace (dev, release, relchk = release+overflow-checks+debug-assertions, '
+                       'devnochk = dev without them) x feature packed; the fpdec crates are compiled with the same profile as path dependencies']
